@@ -112,6 +112,18 @@ def git_diff(ta, tb):
     return out
 
 
+def struct(store, name, tid):
+    """the tree as nested text, entries in name order: what run_C12.ml prints for the model's commit_tree"""
+    t = store[tid]
+    out = "(" + name.hex()
+    for e in t.iteritems(name_order=True):
+        if e.mode & 0o170000 == 0o040000:
+            out += " " + struct(store, e.path, e.sha)
+        else:
+            out += " %s:%x:%s" % (e.path.hex(), e.mode, hx(e.sha))
+    return out + ")"
+
+
 def pair(req):
     la, lb = listing(req["a"]), listing(req["b"])
     store = MemoryObjectStore()
@@ -122,6 +134,9 @@ def pair(req):
     ida = commit_tree(store, [(p, s, m) for p, m, s in la])
     idb = commit_tree(store, [(p, s, m) for p, m, s in lb])
     res["ida"], res["idb"] = hx(ida), hx(idb)
+    res["struct_a"], res["struct_b"] = struct(store, b"", ida), struct(store, b"", idb)
+    res["items_a"] = ";".join("%s:%x:%s" % ("/".join(c.hex() for c in p.split(b"/")), m, hx(s)) for p, m, s in la) or "_"
+    res["items_b"] = ";".join("%s:%x:%s" % ("/".join(c.hex() for c in p.split(b"/")), m, hx(s)) for p, m, s in lb) or "_"
     res["store"] = dump(store)
     fa, fb = flat(store, ida), flat(store, idb)
     res["build_flatten_a"] = fa == sorted(la)
